@@ -65,12 +65,12 @@ CLAIMED = {
     'C08': dict(
         text='Theorems: WITH clauses evaluated in order up to the first failing (with_short_circuit, matches_iff); side effects once each in '
              'order then RETURN/THROW once, or stop at the first throwing effect (actions_shape); full event log of an accepted call '
-             '(eval_log_shape); a throwing call still counts (throwing_call_counts); actions belong to the handler only (C02_frame). Re-entrant side effects (a SIDE_EFFECT calling a mock function): events of the nested call directly after the effect, remaining effects on the world it left, exceptions propagate (reentrant_effect_events); no nesting = plain call (no_reentrancy_is_plain_call). Second tie (translator): trompeloeil::mock_func regenerated from /repo\'s current source by tools/cxx2lean.py on every run and proved equal to the model definitions (mock_func_order: parameters traced before run_actions, return value last). Also regenerated and tied (Tie/NoMatch.lean): call_matcher::matches / match_conditions (verdict = parameters and all WITH predicates; exactly the predicates up to and including the first failing one are evaluated, none if a parameter rejects: match_conditions_tie, matches_tie), the member report_mismatch (sets `reported`, names the first failing WITH, evaluates no predicate beyond it: report_mismatch_member_eq/_tie), the free report_mismatch (lists every matching saturated expectation or else a Tried explanation of every active one: report_mismatch_free_eq/_tie), hook_last (newest first).',
+             '(eval_log_shape); a throwing call still counts (throwing_call_counts); actions belong to the handler only (C02_frame). Re-entrant side effects (a SIDE_EFFECT calling a mock function): events of the nested call directly after the effect, remaining effects on the world it left, exceptions propagate (reentrant_effect_events); no nesting = plain call (no_reentrancy_is_plain_call). Second tie (translator): trompeloeil::mock_func regenerated from /repo\'s current source by tools/cxx2lean.py on every run and proved equal to the model definitions (mock_func_order: parameters traced before run_actions, return value last). Also regenerated and tied (Tie/NoMatch.lean): call_matcher::matches / match_conditions (verdict = parameters and all WITH predicates; exactly the predicates up to and including the first failing one are evaluated, none if a parameter rejects: match_conditions_tie, matches_tie), the member report_mismatch (sets `reported`, names the first failing WITH, evaluates no predicate beyond it: report_mismatch_member_eq/_tie), the free report_mismatch (lists every matching saturated expectation or else a Tried explanation of every active one: report_mismatch_free_eq/_tie), hook_last (newest first). What the caller receives: harness/retref (19 cases, ASan+UBSan): every way of writing RETURN / LR_RETURN for value, reference, const-reference and pointer returns, the received object identified by address; proof side: the overload set of decay_return_type regenerated as a table and tied (Tie/DecayReturn.lean: an lvalue RETURN expression, const or not, leaves the clause as that very object).',
         ref='DESIGN.md §4 C08', technique='Lean 4 proof + model/implementation correspondence'),
     'C13': dict(
         text='Theorems: unexpected destruction iff no live requirement (unexpected_iff_none); with requirements alive nothing but sequence '
              'reports and EACH requirement becomes died (expected_destruction via notify_fold); still-alive once and forgotten by the object '
-             '(still_alive, forgotten_by_object); copies/moves do not inherit, assignment keeps (copies_do_not_inherit, assign_keeps). Second tie (translator): ~deathwatched, ~lifetime_monitor regenerated from /repo\'s current source by tools/cxx2lean.py on every run and proved equal to the model definitions (deathwatched_dtor_order, lifetime_monitor_dtor_order, killw_sem, releasemon_sem: the interpreted traces are the model transitions of killw / releasemon).',
+             '(still_alive, forgotten_by_object); copies/moves do not inherit, assignment keeps (copies_do_not_inherit, assign_keeps). Second tie (translator): ~deathwatched, ~lifetime_monitor regenerated from /repo\'s current source by tools/cxx2lean.py on every run and proved equal to the model definitions (deathwatched_dtor_order, lifetime_monitor_dtor_order, killw_sem, releasemon_sem: the interpreted traces are the model transitions of killw / releasemon). Copies, moves and assignments of watched objects are made through every view of the source (non-const lvalue, const view, rvalue, const rvalue: they select different constructors of deathwatched<T>); the copy / move constructors of null_on_move are translated and tied (a copy or a move of a deathwatched object holds no requirement).',
         ref='DESIGN.md §4 C13', technique='Lean 4 proof (induction over the monitor chain) + model/implementation correspondence'),
     'C14': dict(
         text='Theorems: the linkage invariant WF (every id on a mock function list denotes a live expectation attached to exactly that '
@@ -98,7 +98,7 @@ CLAIMED = {
     'C17': dict(
         text='Theorems: accepted call => exactly one trace record to the head of the live-tracer chain with handler, arguments, result '
              '(trace_one_per_accepted); no tracer => no trace (no_tracer_no_trace); non-calls never trace (only_calls_trace); tracer chain '
-             'push/remove (tracer_stack, nested_restore). Re-entrant calls: the outer record is the last record of the operation and carries the outer result (reentrant_outer_record_last). Second tie (translator): ~tracer, mock_func regenerated from /repo\'s current source by tools/cxx2lean.py on every run and proved equal to the model definitions (tracer_dtor_tie, mock_func_order).',
+             'push/remove (tracer_stack, nested_restore). Re-entrant calls: the outer record is the last record of the operation and carries the outer result (reentrant_outer_record_last). Second tie (translator): ~tracer, mock_func regenerated from /repo\'s current source by tools/cxx2lean.py on every run and proved equal to the model definitions (tracer_dtor_tie, mock_func_order). Threads: scenario s9 of harness/conc (tracer constructed on the main thread, accepted calls on 2-8 worker threads, records = accepted calls; a nested tracer made and destroyed first) is part of this check.',
         ref='DESIGN.md §4 C17', technique='Lean 4 proof + model/implementation correspondence'),
     'C11': dict(
         text='Theorems (all lengths, duplicates allowed): the element-wise fold / std::equal / std::mismatch loops accept exactly '
@@ -120,7 +120,7 @@ CLAIMED = {
              'non-null and pointee accepted, null never dereferenced (eval_deref, eval_deref_null); MEMBER_IS (eval_member); re = non-null '
              'and found (re_iff, search is an oracle); the six comparisons on ints and strings, null comparison (cmp_int, cmp_str, cmp_null); '
              'plain value operand = eq (plain_value_operand_int); laws (not_anyOf_eq_noneOf, double_negation, empty_operands, '
-             'noneOf_eq_allOf_not). Tie: generated C++ expressions compiled against the real headers, evaluated over whole domains.',
+             'noneOf_eq_allOf_not). Tie: generated C++ expressions compiled against the real headers, evaluated over whole domains. Proof-side tie (Tie/Compare.lean, regenerated every run): the functor macro and the function table of matcher/compare.hpp, predicate_matcher::matches_, param_matches_impl for matchers and for plain values, the MEMBER_IS functor and any_predicate, composed into eval (compare_matcher_tie: a comparison matcher accepts exactly x op v, argument on the left; param_matches_value_tie). Generated trees include plain nullptr operands and operands of another arithmetic type (k + 0.5 against integer arguments).',
         ref='DESIGN.md §4 C10', engine='lean-matcher',
         note='Trusted: Lean kernel; axioms propext/Classical.choice/Quot.sound; statements in Props/C10.lean; generator + generated harness; '
              'std::regex_search modelled as an oracle (answers from Python re on a common pattern subset); the C++ overload/template '
@@ -158,7 +158,7 @@ CLAIMED = {
              'functions and vice versa, missing RETURN on non-void are rejected (multiple_times_rejected ... missing_return_rejected); legal forms '
              'accepted (examples); no macro outside TROMPELOEIL_ with TROMPELOEIL_LONG_MACROS (long_macros_clean). Compile farm: the 68 '
              'shipped negative programs with their own pass/exception rules, and every clause list up to length 2 (quick) / 3 (thorough) over 4 '
-             'signatures compiled and compared with the model\'s predicted fate and message. Found and repaired: F1.',
+             'signatures compiled and compared with the model\'s predicted fate and message. Found and repaired: F1. The macro table is the union over every form of defining TROMPELOEIL_LONG_MACROS (-D, empty definition, =0).',
         ref='DESIGN.md §4 C19', engine='lean-gen',
         note='Trusted: Lean kernel; axioms propext/Classical.choice/Quot.sound; the translator tools/translate.py (a condition it cannot '
              'parse or a trait it does not know fails the translation = broken obligation); g++ 12.2 evaluating static_assert as written. '
@@ -189,7 +189,7 @@ CLAIMED = {
              'the discipline - guarded access hooks + the library\'s custom-mutex customisation point give a per-site held/unheld table, 5 '
              'scenarios x seeds x 2-8 threads run under ThreadSanitizer, and the operations of a concurrent run are replayed on the sequential '
              'World model in critical-section order and must give the same handlers, counts, reports and query answers. Found and repaired: '
-             'F9, F10, F11 (three unsynchronised accesses). Static complement (third session): tools/lockscope.py regenerates from the current source, for every function that takes the global lock, the list of its statements, declarations, conditions and return expressions with whether each stands lexically inside the lock scope (Gen/LockScopes.lean); proved over it by decide: everything outside a lock scope is the lock declaration itself, the RT_TIMES argument check, or the forbidden-call prologue of run_actions, which runs under the lock of its only caller mock_func (lexical_lock_coverage, run_actions_called_under_lock); the set of lock-taking functions is pinned (lock_takers: a function that loses its lock drops out of the table); the mutating steps are inside a lock scope by name (critical_steps_locked). Not visible to the lexical scan: implicit member/base destructors at scope end - those are TSan\'s.',
+             'F9, F10, F11 (three unsynchronised accesses). Static complement (third session): tools/lockscope.py regenerates from the current source, for every function that takes the global lock, the list of its statements, declarations, conditions and return expressions with whether each stands lexically inside the lock scope (Gen/LockScopes.lean); proved over it by decide: everything outside a lock scope is the lock declaration itself, the RT_TIMES argument check, or the forbidden-call prologue of run_actions, which runs under the lock of its only caller mock_func (lexical_lock_coverage, run_actions_called_under_lock); the set of lock-taking functions is pinned (lock_takers: a function that loses its lock drops out of the table); the mutating steps are inside a lock scope by name (critical_steps_locked). Not visible to the lexical scan: implicit member/base destructors at scope end - those are TSan\'s. Also over regenerated tables: no_early_unlock (no lock-taking function unlocks / releases / moves the lock before the end of its scope) and lock_free_reads_atomic (the state queries that do not take the lock read only data members declared atomic). Scenario s9: a tracer constructed before the workers start receives one record per accepted call made on any thread.',
         ref='DESIGN.md §4 C12', engine='lean-conc',
         note='Trusted: Lean kernel; axioms propext/Classical.choice/Quot.sound; ThreadSanitizer; the instrumented mutex; that the hooked sites '
              'are all shared accesses. Not covered: schedules not explored, deadlocks against user locks, user-supplied custom mutexes, memory-model '
